@@ -14,7 +14,8 @@ from vk import f2j
 
 RESERVED = {'short', 'int', 'long', 'float', 'double', 'char', 'typedef', 'struct', 'enum', 'symbols'}
 # characters the property names explicitly: blank, tab, '#', ';', braces, plus a few others
-ALPHA = 'abXY09 \t#;{}\',.:=\\-_/+*()[]<>|@!?~^&%$'
+# ... and the ASCII separators that Python counts as line boundaries / whitespace but the format does not (form feed, vertical tab, FS, RS)
+ALPHA = 'abXY09 \t#;{}\',.:=\\-_/+*()[]<>|@!?~^&%$\x0b\x0c\x1c\x1e'
 ident = st.from_regex(r'[A-Za-z][A-Za-z0-9_]{0,7}', fullmatch=True).filter(lambda s: s.lower() not in RESERVED)
 # header keywords: any identifier, also the words the parser uses for its own bookkeeping (a pair may be called struct or enum)
 keyword = st.one_of(ident, ident, ident, st.sampled_from(['struct', 'enum', 'STRUCT', 'Enum', 'symbols']))
@@ -36,7 +37,7 @@ def string_ok(s, in_array=False):
 
 def text(width, in_array=False, alphabet=ALPHA):
     base = st.one_of(
-        st.sampled_from(['', ' ', 'a b', '#', 'a#b', ';', 'a;b', 'x{y}z', '\t', 'a\tb', "it's", '\\', 'a\\b', '-1', '1e5', 'nan']),
+        st.sampled_from(['', ' ', 'a b', '#', 'a#b', ';', 'a;b', 'x{y}z', '\t', 'a\tb', "it's", '\\', 'a\\b', '-1', '1e5', 'nan', 'p1\x0cp2', 'a\x0bb']),
         st.text(alphabet=alphabet, max_size=width))
     return base.map(lambda s: s[:width]).filter(lambda s: string_ok(s, in_array))
 
@@ -131,10 +132,12 @@ def fix_last_column(tables):
 def fix_enums(tables):
     """The enums dict of the writer is keyed by column name for the whole file: an enum column
     whose name also occurs elsewhere (or whose type name clashes) is demoted to a plain string column."""
+    # (a numeric column of the same name in another table is no clash: the writer consults its enums dict for string columns only)
     seen_cols = {}
     for t in tables:
         for c in t['cols']:
-            seen_cols[c['name']] = seen_cols.get(c['name'], 0) + 1
+            if c['kind'] in ('S', 'U', 'V', 'E'):
+                seen_cols[c['name']] = seen_cols.get(c['name'], 0) + 1
     etypes = set()
     tnames = {t['name'].upper() for t in tables}
     for t in tables:
@@ -271,7 +274,7 @@ def pair_text(v):
 
 
 def header_value():
-    txt = st.text(alphabet='abXY09 \t;{}\',.:=-_/+*()[]<>|@!?~^&%$', max_size=10).map(lambda s: s.strip()).filter(
+    txt = st.text(alphabet='abXY09 \t;{}\',.:=-_/+*()[]<>|@!?~^&%$\x0c\x1e', max_size=10).map(lambda s: s.strip()).filter(
         lambda s: not DOUBLE_BRACE.search(s) and not s.endswith('\\'))
     return st.one_of(st.integers(-10 ** 9, 10 ** 9), st.floats(allow_nan=False, allow_infinity=False, width=64), txt,
                      st.sampled_from(['', 'beta gamma delta', '54579', "a 'quoted' word", '{1 2 3}', 'x;y', '1.5e-3']))
